@@ -312,6 +312,14 @@ def rule_pattern(ctx, repo):
     ctx.check(ok, "C03.pattern", "System.j_update/branch-agreement",
               "ipadd(vals, rows, cols) and += spmatrix(vals, rows, cols, size(j_name)) agree",
               "in-place and rebuild branches do not both add (vals, rows, cols) of the same triplet to dae.<j_name>", j.W())
+    # between restore and exit the matrices may only be touched by pattern-preserving accumulation
+    bad = []
+    for n in walk_noscope(fn):
+        if isinstance(n, ast.Assign) and any((dotted(t.value) if isinstance(t, ast.Subscript) else None) == "self.dae.__dict__" for t in n.targets):
+            bad.append(src(n))
+    ctx.check(not bad, "C03.pattern", "System.j_update/pattern-preserving",
+              "after restore_sparse the matrices are only modified by ipadd / += spmatrix (template pattern kept)",
+              "dae Jacobian reassigned after accumulation (%s): stored zeros can be dropped, so the pattern changes between updates" % bad, j.W())
     isl = j.calls("self.j_islands")
     ok, wit = j.after(acc, isl)
     ctx.check(ok, "C03.pattern", "System.j_update/islands-last", "j_islands() post-dominates accumulation",
@@ -332,6 +340,17 @@ def rule_pattern(ctx, repo):
         for lp2, e2 in Q.loops(lp, "enumerate(self.calls.vjac[$j])", "($i, $_)", e1):
             if Q.has("self.triplets.vjac[$j][$i][:] = $ret[$i]", lp2, e2):
                 inplace = True
+    # no iteration may bypass the evaluation (conditional skip / cache): every path around the model loop passes the call
+    if inplace:
+        heads = [n for n in m.g.nodes() if m.g.data(n)["kind"] == "loop" and isinstance(m.g.data(n)["ast"], ast.For)
+                 and Q.match("self.calls.j.items()", m.g.data(n)["ast"].iter)]
+        evals = [n for n in m.g.nodes() if m.g.data(n)["kind"] == "stmt" and Q.match("$r = $f(*self.j_args[$j])", m.g.data(n)["ast"])]
+        if heads and evals and m.g.cycle_avoiding(heads[0], evals):
+            inplace = False
+            ctx.violation("C03.pattern", "Model.j_update/skip", "an iteration of the Jacobian loop can skip the evaluation of its function "
+                          "(conditional `continue` / cache): entries that depend on parameters or status keep stale values after "
+                          "alter()/set()", m.W(heads[0]))
+            inplace = True
     mut = [c for c in calls_in(fn) if (dotted(c.func) or "").split(".")[-1] in ("append_ijv", "clear_ijv", "merge")]
     ctx.check(inplace and not mut, "C03.pattern", "Model.j_update",
               "k-th returned value of jfunc(*j_args[jname]) written in place into k-th addressed triplet; structure untouched",
